@@ -27,4 +27,6 @@ try:
         print(name, pid, verdict, sigs[:4])
 finally:
     sh("git checkout -- . && git clean -fdq crates", cwd="/repo")
+    # the evidence files were rewritten by runs against the seeded change: restore the committed ones
+    sh("git checkout -- evidence", cwd="/verif")
 json.dump(meta, open(f"{d}/meta.json", "w"), indent=1)
